@@ -44,6 +44,12 @@ func (wrapper DelegationHooksWrapper) AfterUndelegationStarted(
 	) {
 		// if the operator is opting out, we need to use the finish epoch of the opt out.
 		unbondingCompletionEpoch = wrapper.keeper.GetOperatorOptOutFinishEpoch(ctx, operator)
+		if unbondingCompletionEpoch < 0 {
+			// the opt out is being completed at the end of this very block: its finish epoch
+			// has ended and the operator was moved to the pending opt outs in BeginBlock.
+			// there is nothing left to wait for, so the undelegation is not tracked.
+			return nil
+		}
 		// even if the operator opts back in, the undelegated vote power does not reappear
 		// in the picture. slashable events between undelegation and opt in cannot occur
 		// because the operator is not in the validator set.
